@@ -53,6 +53,16 @@ func init() {
 	}
 	regExtern("reflect.Type.NumField", "reflect.Type.NumField(): a non-negative function of the receiver", numField)
 	regExtern("(reflect.Value).NumField", "reflect.Value.NumField(): a non-negative function of the receiver", numField)
+	regExtern("(reflect.Value).Len", "reflect.Value.Len(): a non-negative function of the receiver",
+		func(ex *Exec, fr *Frame, st *State, pc *Term, fn *ssa.Function, args []Value, pos token.Pos) (Value, *Term) {
+			var ls []*Term
+			for _, a := range args {
+				ls = append(ls, toLeaves(a)...)
+			}
+			n := App("reflect.Len", BV64, ls...)
+			ex.assumeAlways(And(SLe(C64(0), n), SLe(n, C64(int64(SizeBound)))))
+			return VBV{n}, pc
+		})
 	regPrefix("reflect.Type.", "reflect.Type methods: opaque results, no effect on modelled state; reflect's own panics are not modelled", pureOpaque)
 	regPrefix("(reflect.Value).", "reflect.Value methods: opaque results, no effect on modelled state; reflect's own panics are not modelled", pureOpaque)
 	regPrefix("(reflect.StructTag).", "reflect.StructTag methods: opaque results", pureOpaque)
@@ -60,6 +70,11 @@ func init() {
 }
 
 func init() {
+	regExtern("(reflect.Value).Interface", "reflect.Value.Interface(): the value as an interface - a function of the receiver (opaque)",
+		func(ex *Exec, fr *Frame, st *State, pc *Term, fn *ssa.Function, args []Value, pos token.Pos) (Value, *Term) {
+			ls := toLeaves(args[0])
+			return VIface{App("reflect.iface.tag", BV64, ls...), App("reflect.iface.pay", BV64, ls...)}, pc
+		})
 	regExtern("(reflect.Value).Type", "reflect.Value.Type(): a non-nil type descriptor (opaque)",
 		func(ex *Exec, fr *Frame, st *State, pc *Term, fn *ssa.Function, args []Value, pos token.Pos) (Value, *Term) {
 			tag := Fresh("reflect.type.tag", BV64)
